@@ -40,6 +40,7 @@ inductive KvVariant
   | noRecheck   -- current code: call createFn and insert, without looking again
   | recheckMem  -- look again in mutable/immutable under the lock
   | recheckFull -- look again in memory and retry the whole lookup when a flush completed meanwhile
+  | recheckLocked -- look again in memory AND in the current snapshot, all under the write lock
   deriving DecidableEq, Repr
 
 structure KvStore where
@@ -155,7 +156,42 @@ def kstep (v : KvVariant) (s : KvStore) (ctr : Nat) (t : KThread) : KvStore × N
       match s.lookupMem t.bucket t.name with
       | some i => (s, ctr, { t with pc := .done i })
       | none => if s.flushSeq = q then create else (s, ctr, { t with pc := .start })
+    | .recheckLocked =>
+      -- Flush's tail needs the write lock too: mutable, immutable and snapshot are one consistent view
+      match s.lookupMem t.bucket t.name with
+      | some i => (s, ctr, { t with pc := .done i })
+      | none =>
+        match s.lookupPersisted t.bucket t.name with
+        | some i => (s, ctr, { t with pc := .done i })
+        | none => create
   | .done _ => (s, ctr, t)
+
+/-- the same call with the two lookups in the other order: persisted bucket first (pc `afterMem` then
+means "after the first lookup"), memory maps second. Not what lindb does; the regenerated call order
+decides which of the two the interleaving theorems are about. -/
+def kstepPF (v : KvVariant) (s : KvStore) (ctr : Nat) (t : KThread) : KvStore × Nat × KThread :=
+  match t.pc with
+  | .start =>
+    match s.lookupPersisted t.bucket t.name with
+    | some i => (s, ctr, { t with pc := .done i })
+    | none => (s, ctr, { t with pc := .afterMem s.flushSeq })
+  | .afterMem q =>
+    match s.lookupMem t.bucket t.name with
+    | some i => (s, ctr, { t with pc := .done i })
+    | none => (s, ctr, { t with pc := .afterDisk q })
+  | _ => kstep v s ctr t
+
+/-- `memFirst` = the memory maps are consulted before the persisted bucket -/
+def kstepO (memFirst : Bool) (v : KvVariant) : KvStore → Nat → KThread → KvStore × Nat × KThread :=
+  if memFirst then kstep v else kstepPF v
+
+/-- run one thread alone (step function `f`) until it is done -/
+def krunG (f : KvStore → Nat → KThread → KvStore × Nat × KThread) : Nat → KvStore → Nat → KThread → KvStore × Nat × KThread
+  | 0, s, c, t => (s, c, t)
+  | fuel + 1, s, c, t =>
+    match t.pc with
+    | .done _ => (s, c, t)
+    | _ => let r := f s c t; krunG f fuel r.1 r.2.1 r.2.2
 
 /-- run one thread alone until it is done (`fuel` bounds the retries of `recheckFull`; without
 interference the thread needs at most three steps) -/
@@ -497,6 +533,8 @@ structure Cfg where
   schemaMarkWritten : Bool := false
   /-- `PrepareFlush` also swaps when the immutable map is empty (lindb commit a4b424c) -/
   prepareSwapsEmpty : Bool := false
+  /-- `getOrCreateValue` looks into the memory maps before the persisted bucket -/
+  kvMemFirst : Bool := true
   deriving DecidableEq, Repr
 
 structure Node where
@@ -631,6 +669,43 @@ def metaFlushFieldInWindow (c : Cfg) (nd : Node) (m f : Nat) : Node × GenOut :=
   let r := nd2.genFieldID c m f
   let sch := if c.schemaMarkWritten then r.1.schema.finishWritten pre else r.1.schema.finish
   (({ r.1 with schema := sch } : Node).metaFlushStep 4, r.2)
+
+/-- witness schedule "lookup ‖ flush": `GenMetricID(ns, name)` for names that exist, with a whole
+metadata flush running while the caller sits between taking the snapshot and the next lookup.
+With the memory maps first the caller never gets that far when the name is in memory (the flush then
+simply runs afterwards); with the persisted bucket first the caller is stopped at the first store whose
+persisted lookup misses, the flush empties the memory maps, and the caller creates a second id. -/
+def lookupFlushRace (c : Cfg) (nd : Node) (nb nsName name : Nat) : Node × GenOut :=
+  if c.kvMemFirst then
+    let r := nd.genMetric c nb nsName name
+    (r.1.metaFlush, r.2)
+  else
+    let a1 := kstepPF c.kv nd.ns nd.seqMem.ns { bucket := nb, name := nsName }
+    match a1.2.2.pc with
+    | .done nsID =>
+      -- the namespace is persisted already: the caller is stopped in the metric store
+      let b1 := kstepPF c.kv nd.metric nd.seqMem.metric { bucket := nsID, name := name }
+      match b1.2.2.pc with
+      | .done i => (nd.metaFlush, .id i)
+      | _ =>
+        let nd1 := nd.metaFlush
+        let b2 := krunG (kstepPF c.kv) 8 nd1.metric nd1.seqMem.metric b1.2.2
+        let nd2 := afterAlloc c { nd1 with metric := b2.1, seqMem := { nd1.seqMem with metric := b2.2.1 } }
+        match b2.2.2.pc with
+        | .done i => (nd2, .id i)
+        | _ => (nd2, .stuck)
+    | _ =>
+      let nd1 := nd.metaFlush
+      let a2 := krunG (kstepPF c.kv) 8 nd1.ns nd1.seqMem.ns a1.2.2
+      let nd2 := afterAlloc c { nd1 with ns := a2.1, seqMem := { nd1.seqMem with ns := a2.2.1 } }
+      match a2.2.2.pc with
+      | .done nsID =>
+        let r2 := getOrCreate c.kv nd2.metric nd2.seqMem.metric nsID name
+        let nd3 := afterAlloc c { nd2 with metric := r2.1, seqMem := { nd2.seqMem with metric := r2.2.1 } }
+        match r2.2.2 with
+        | some i => (nd3, .id i)
+        | none => (nd3, .stuck)
+      | _ => (nd2, .stuck)
 
 def indexPrepare (nd : Node) (shard : Nat) : Node := nd.setShard shard (nd.shards shard).prepareFlush
 
